@@ -56,6 +56,8 @@ def term(x):
 def bterm(x):
     if isinstance(x, SymBool):
         return x.t
+    if hasattr(x, "bool_term"):
+        return x.bool_term()
     if isinstance(x, bool):
         return z3.BoolVal(x)
     if z3.is_bool(x):
@@ -849,7 +851,17 @@ class SymPattern:
                 raise Inconclusive(f"regex {self.pat.pattern!r} not encodable: {e}")
         return self._prog
 
+    def _cvcall(self, name, *args, **kw):
+        """any argument is a finite-choice value: evaluate the real `re` method pointwise"""
+        from fv import choice
+        if any(isinstance(a, choice.CV) for a in args):
+            return True, choice.apply(lambda *aa: getattr(self.pat, name)(*aa, **kw), *args)
+        return False, None
+
     def _run(self, s, mode, start=0):
+        hit, r = self._cvcall(mode, s) if (isinstance(start, int) and start == 0) else self._cvcall(mode, s, start)
+        if hit:
+            return r
         if isinstance(s, str):
             return getattr(self.pat, mode)(s) if start == 0 else getattr(self.pat, mode)(s, start)
         engine().note_regex(self.pat)
@@ -868,11 +880,19 @@ class SymPattern:
         return self._run(s, "search", pos)
 
     def fullmatch(self, s):
+        hit, r = self._cvcall("fullmatch", s)
+        if hit:
+            return r
         if isinstance(s, str):
             return self.pat.fullmatch(s)
         raise Unsupported("fullmatch on SymStr")
 
     def finditer(self, s):
+        hit, r = self._cvcall("findall", s)
+        if hit:
+            from fv import choice
+            yield from choice.apply(lambda x: list(self.pat.finditer(x)), s)
+            return
         if isinstance(s, str):
             yield from self.pat.finditer(s)
             return
@@ -886,6 +906,9 @@ class SymPattern:
             pos = mk_int(z3.If(e == st, e + 1, e))
 
     def findall(self, s):
+        hit, r = self._cvcall("findall", s)
+        if hit:
+            return r
         out = []
         for m in self.finditer(s):
             g = self.groups
@@ -893,6 +916,9 @@ class SymPattern:
         return out
 
     def split(self, s, maxsplit=0):
+        hit, r = self._cvcall("split", s, maxsplit)
+        if hit:
+            return r
         if isinstance(s, str):
             return self.pat.split(s, maxsplit)
         out = []
@@ -906,6 +932,9 @@ class SymPattern:
         return out
 
     def sub(self, repl, s, count=0):
+        hit, r = self._cvcall("sub", repl, s, count)
+        if hit:
+            return r
         if isinstance(s, str) and isinstance(repl, str):
             return self.pat.sub(repl, s, count)
         s = SymStr.lift(s)
